@@ -674,19 +674,18 @@ theorem soundQ_cons (t : TraitType) (ts : List TraitType) (hP : SoundP E t) (hQ 
       obtain ⟨t', hm, hg⟩ := q2 hc.2 v w h
       exact ⟨t', by simp [hm], hg⟩
     | none =>
-      simp only [hd, Option.isSome_none, beq_self_eq_true, if_true] at h
-      cases hpy : pyValidate E t v with
+      have hct : (if (false || hasPy t) = true then pyValidate E t v else Res.ok v) = ctraitValidate E t v := by
+        simp [ctraitValidate, ctraitValidateWith, hd]
+      simp only [hd, Option.isSome_none, beq_self_eq_true, if_true, hct] at h
+      cases hr : ctraitValidate E t v with
       | traitError =>
-        simp only [hpy] at h
+        simp only [hr] at h
         obtain ⟨t', hm, hg⟩ := q2 hc.2 v w h
         exact ⟨t', by simp [hm], hg⟩
-      | raised e => simp [hpy] at h
+      | raised e => simp [hr] at h
       | ok x =>
-        simp [hpy] at h; subst h
-        by_cases hp : hasPy t = true
-        · exact ⟨t, by simp, p2 hc.1 v x (by rw [ctraitValidate_of_none E t v hd hp, hpy])⟩
-        · have := hasPy_false_raises E t v (by simpa using hp)
-          rw [this] at hpy; cases hpy
+        simp [hr] at h; subst h
+        exact ⟨t, by simp, p2 hc.1 v x hr⟩
   · intro hc hpc v w h
     simp only [soundCleanL, pyCleanL, Bool.and_eq_true] at hc hpc
     simp only [pySel] at h
